@@ -1,0 +1,17 @@
+//go:build !verif
+
+package raft
+
+import (
+	"time"
+
+	"github.com/hashicorp/raft"
+)
+
+// VerifStub is only populated in builds with the tag verif.
+type VerifStub struct {
+	Leader func() bool
+	Apply  func(cmd []byte, timeout time.Duration) raft.ApplyFuture
+}
+
+func (r *Raft) verifStub() *VerifStub { return nil }
